@@ -465,8 +465,11 @@ def c07_get (e : Env) (o : Obs) : Option String :=
     else match counterIn e.pre cred with
       | some (some _) =>
         -- an assertion is never returned unless the store accepted its counter value
-        if (acceptedUpdates o.trace).any (fun u => u.1 == cred && u.2 == some (counterField ad)) then none
-        else some "assertion-returned-without-the-store-accepting-its-counter"
+        if !(acceptedUpdates o.trace).any (fun u => u.1 == cred && u.2 == some (counterField ad)) then
+          some "assertion-returned-without-the-store-accepting-its-counter"
+        -- ... and "accepted" means held: the store now has that value (a wrapper that answers Ok without writing has not accepted it)
+        else if counterIn o.store cred != some (some (counterField ad)) then some "assertion-returned-but-the-store-does-not-hold-its-counter"
+        else none
       | _ => none
   | _ => none
 
